@@ -4,6 +4,7 @@ INVARIANT TypeOK
 INVARIANT Compositional
 INVARIANT RoeFalseNeverRaises
 INVARIANT FilterKeeps
+INVARIANT SecondRunSame
 INVARIANT FilterOrder
 INVARIANT Inside
 CHECK_DEADLOCK FALSE
